@@ -84,6 +84,36 @@ def rule_dedup(ctx):
   ok = pr.batchgcd()   # records R-C01-CERT row as well (shared obligation)
   ctx.record(R, f.where, "re-expansion over `values`", ok, "result = [D[v] for v in values]: same length and order as the input, identical moduli get identical entries" if ok
              else "result is not re-expanded over the input list through the value-keyed dict")
+  # shortcut returns ([] / [1] * len(values)) are exact only when fewer than two distinct moduli exist and no
+  # extra product was supplied: with one distinct modulus v the specified entry is gcd(v, other_values_prod)
+  for e in getattr(pr, "batchgcd_trivial", []):
+    facts = list(e.state.facts)
+    few = False
+    for fct in facts:
+      if fct[0] == "cmp":
+        _, op, a, b = fct
+        a, b = as_poly(a), as_poly(b)
+        if a in (sym.mk("len", sym.mk("set", values)), sym.mk("len", values)):
+          c = b.as_int()
+          if c is not None and ((op == "Lt" and c <= 2) or (op == "LtE" and c <= 1) or (op == "Eq" and c in (0, 1))):
+            few = True
+      elif fct[0] == "falsy" and as_poly(fct[1]) in (values, sym.mk("set", values)):
+        few = True
+    other = [q for q in f.params()[1:]]
+    no_extra = not other
+    for q in other:
+      o = P("param", q)
+      for fct in facts:
+        if fct[0] == "falsy" and as_poly(fct[1]) == o:
+          no_extra = True
+        if fct[0] == "cmp" and fct[1] in ("Is", "Eq") and as_poly(fct[2]) == o and repr(fct[3]) in ("None", "Const(None)", "0"):
+          no_extra = True
+    line = getattr(e.node, "lineno", 0)
+    if few and no_extra:
+      ctx.ok(R, f.where, "shortcut return (line %d)" % line, "taken only with fewer than two distinct moduli and no extra product: all gcds are 1")
+    else:
+      ctx.violation(R, f.where, "shortcut return of all-ones", "the early return is taken " + ("with two or more distinct moduli possible" if not few else
+                    "although `%s` may be supplied: a single modulus dividing the extra product must not get gcd 1" % other[0]))
   # move the shared row under this property's rule id for evidence clarity
   for r in ctx.results:
     if r.rule == "R-C01-CERT":
